@@ -1,6 +1,7 @@
 package main
 
 import (
+	"go/types"
 	"encoding/json"
 	"fmt"
 	"os"
@@ -685,6 +686,20 @@ func (a *Analysis) CheckC03(rep *Report, tier string) {
 			}
 			sort.Strings(os)
 			_, unk := orders["?"]
+			if unk && len(orders) == 1 && hasOpenTypeArgs(fn) {
+				// a generic body whose order comes through a type parameter (`var o O; o.byteOrder()`, O a byte-order
+				// strategy type): it has no order of its own – every full instantiation (each analysed here as well) has
+				full := 0
+				for _, inst := range insts[f] {
+					if inst.Blocks != nil && !hasOpenTypeArgs(inst) {
+						full++
+					}
+				}
+				if full > 0 {
+					unk = false
+					delete(orders, "?")
+				}
+			}
 			rep.Ob("B2-order-pure", name, len(orders) <= 1 && !unk, a.P.Pos(fn.Pos()), "primitive mixes byte orders: "+strings.Join(os, ", "))
 		}
 	}
@@ -1258,4 +1273,41 @@ func (a *Analysis) primRendering(fn *ssa.Function, flip bool) ([]string, error) 
 	}
 	sort.Strings(out)
 	return out, nil
+}
+
+// hasOpenTypeArgs: fn is a generic body or a partial instantiation – some type parameter is still open in it.
+func hasOpenTypeArgs(fn *ssa.Function) bool {
+	if len(fn.TypeArgs()) == 0 {
+		return fn.TypeParams() != nil && fn.TypeParams().Len() > 0
+	}
+	open := false
+	var walk func(t types.Type, d int)
+	walk = func(t types.Type, d int) {
+		if t == nil || d > 6 || open {
+			return
+		}
+		switch u := t.(type) {
+		case *types.TypeParam:
+			open = true
+		case *types.Named:
+			if ta := u.TypeArgs(); ta != nil {
+				for i := 0; i < ta.Len(); i++ {
+					walk(ta.At(i), d+1)
+				}
+			}
+		case *types.Pointer:
+			walk(u.Elem(), d+1)
+		case *types.Slice:
+			walk(u.Elem(), d+1)
+		case *types.Array:
+			walk(u.Elem(), d+1)
+		case *types.Map:
+			walk(u.Key(), d+1)
+			walk(u.Elem(), d+1)
+		}
+	}
+	for _, t := range fn.TypeArgs() {
+		walk(t, 0)
+	}
+	return open
 }
